@@ -1,6 +1,6 @@
 --------------------------- MODULE JudgePortsRes ---------------------------
 (* C40, V: one recorded case per evaluation of a generated program
-     [shape, intr, pfail, exc, fd, go, bg]
+     [shape, intr, pfail, strict, exc, fd, go, bg]
    shape = the program's abstract shape (Ports, part 2), intr = the evaluation was interrupted,
    exc = it raised, fd / go = file descriptors / goroutines above the baseline after it returned
    (settled), bg = it started a background job or opened a file explicitly (never generated).
@@ -13,7 +13,14 @@ VARIABLE k
 Init == k = 0
 Next == k < Len(Cases) /\ k' = k + 1
 Leaks(c) == ~c.bg /\ (c.fd # 0 \/ c.go # 0)
-PathOK(c) == c.intr \/ (IF c.pfail THEN c.exc ELSE c.exc = FailsP(c.shape))   \* pfail: a pipe could not be created
+(* strict (the model's own shapes, G): raised <=> FailsP.  Random programs (V): FailsP => raised only --
+   Unspecified the other way round: a writer whose reader has gone raises reader-gone, which is
+   suppressed for a form writing to its own pipeline but not when it surfaces through peach,
+   run-parallel, a loop or a capture nested in that form. *)
+PathOK(c) == \/ c.intr
+             \/ (IF c.pfail THEN c.exc                                     \* pfail: a pipe could not be created
+                 ELSE IF c.strict THEN c.exc = FailsP(c.shape)
+                 ELSE FailsP(c.shape) => c.exc)
 CaseOK(c) == ~Leaks(c) /\ PathOK(c)
 Why(c) == IF Leaks(c) THEN "leak" ELSE "path"
 Inv == k = 0 \/ CaseOK(Cases[k]) \/ PrintT(<<"BAD", k, Why(Cases[k])>>)
